@@ -441,7 +441,9 @@ def residuals(spec, get, t, deviation=False, variant=None, which="transition"):
 
     def v(name, tt):
         x = get(name, tt)
-        return math.log(x) if log else x
+        if log:
+            return math.log(x) if x > 0 else float("nan")      # a non-positive log-variable makes the residual NaN
+        return x
 
     out = []
     if which == "transition":
